@@ -5,6 +5,7 @@ CONSTANTS
   XC <- MC_XC
   P0 <- MC_P0
   Ext <- MC_Ext
+  IndexCap = 100
   Variant = "ok"
 INVARIANT Invs
 CHECK_DEADLOCK FALSE
